@@ -492,7 +492,7 @@ func TestVerifC42(t *testing.T) {
 			Spec: kafscalev1alpha1.KafscaleClusterSpec{Brokers: kafscalev1alpha1.BrokerSpec{Replicas: &three, Service: kafscalev1alpha1.BrokerServiceSpec{Type: "LoadBalancer", Annotations: map[string]string{"a": "b"}, LoadBalancerIP: "10.0.0.1", LoadBalancerSourceRanges: []string{"10.0.0.0/8"}, ExternalTrafficPolicy: "Local"}},
 				S3:       kafscalev1alpha1.S3Spec{Bucket: "b", Region: "us-east-1", CredentialsSecretRef: "creds"},
 				LfsProxy: kafscalev1alpha1.LfsProxySpec{Enabled: true, HTTP: kafscalev1alpha1.LfsProxyHTTPSpec{Enabled: &on}, Metrics: kafscalev1alpha1.LfsProxyMetricsSpec{Enabled: &on}}}, Drift: true})
-		n := vN(150, 1500)
+		n := vN(100, 1500)
 		for i := 0; i < n; i++ {
 			runOne(c42Gen(r.Fork()))
 		}
